@@ -242,6 +242,57 @@ class TlcResult:
 _tlc_counter = [0]
 
 
+class _HeapBudget:
+    """cross-process budget for JVM heaps: one lock file per GiB under build/locks; a TLC run holds as many as its -Xmx
+    says while it runs, so that checks started side by side (or sixteen shards of one check) cannot exhaust memory"""
+
+    def __init__(self, gib):
+        import fcntl
+        self.fcntl = fcntl
+        self.need = max(1, gib)
+        self.held = []
+
+    def __enter__(self):
+        d = ensure(os.path.join(BUILD, "locks"))
+        try:
+            total = max(8, int(os.sysconf("SC_PHYS_PAGES") * os.sysconf("SC_PAGE_SIZE") / (1 << 30) * 0.75))
+        except (ValueError, OSError):
+            total = 32
+        need = min(self.need, total)
+        t0 = time.time()
+        while True:
+            got = []
+            for i in range(total):
+                f = open(os.path.join(d, "gib_%d" % i), "a")
+                try:
+                    self.fcntl.flock(f, self.fcntl.LOCK_EX | self.fcntl.LOCK_NB)
+                    got.append(f)
+                    if len(got) == need:
+                        break
+                except OSError:
+                    f.close()
+            if len(got) == need:
+                self.held = got
+                return self
+            for f in got:
+                f.close()
+            if time.time() - t0 > 3600:
+                return self            # never block a check for ever: go ahead without the budget
+            time.sleep(0.2 + random.random() * 0.5)
+
+    def __exit__(self, *a):
+        for f in self.held:
+            f.close()
+        self.held = []
+
+
+def _gib(xmx):
+    m = re.match(r"(\d+)([gGmM])", xmx)
+    if not m:
+        return 4
+    return int(m.group(1)) if m.group(2) in "gG" else max(1, int(m.group(1)) // 1024)
+
+
 def tlc(module, cfg=None, env=None, workers=1, timeout=600, simulate=None, depth=None, xmx="4g",
         xss="64m", dfs=False, coverage=False, extra=(), seed=None, deadlock=None, cwd=None):
     """Run TLC on spec/<module>.tla with spec/<cfg>.cfg.  Distinguishes violation from failure."""
@@ -270,8 +321,9 @@ def tlc(module, cfg=None, env=None, workers=1, timeout=600, simulate=None, depth
     e.pop("JAVA_TOOL_OPTIONS", None)
     if env:
         e.update({k: str(v) for k, v in env.items()})
-    t0 = time.time()
-    p = subprocess.run(cmd, cwd=cwd, env=e, stdout=subprocess.PIPE, stderr=subprocess.STDOUT)
+    with _HeapBudget(_gib(xmx)):
+        t0 = time.time()
+        p = subprocess.run(cmd, cwd=cwd, env=e, stdout=subprocess.PIPE, stderr=subprocess.STDOUT)
     r = TlcResult()
     r.wall = time.time() - t0
     r.out = p.stdout.decode(errors="replace")
